@@ -125,4 +125,65 @@ theorem reset_versions (s : VStore) : s.reset.versions = s.versions := rfl
 def resetDemo : VStore := (VStore.write (VStore.write (VStore.init 3) (.set 2 "b")).commit (.set 1 "a")).write (.del 2)
 example : resetDemo.iter = [(1, "a")] ∧ resetDemo.reset.iter = [(2, "b")] := by decide
 
+/-! ### rollback of committed versions (`AppState.ResetTo`) -/
+
+/-- after a rollback to `h` the working tree is the version `h` … -/
+theorem resetTo_working (s s' : VStore) (h : Nat) (hr : s.resetTo h = some s') : s.at h = some s'.working := by
+  unfold VStore.resetTo at hr
+  cases ha : s.at h with
+  | none => simp [ha] at hr
+  | some m => simp [ha] at hr; rw [← hr]
+
+/-- … the versions up to `h` read as before … -/
+theorem resetTo_at_le (s s' : VStore) (h h' : Nat) (hr : s.resetTo h = some s') (hle : h' ≤ h) : s'.at h' = s.at h' := by
+  unfold VStore.resetTo at hr
+  cases ha : s.at h with
+  | none => simp [ha] at hr
+  | some m =>
+    simp [ha] at hr; rw [← hr]
+    unfold VStore.at
+    simp only [List.find?_filter]
+    have hf : (fun a : Nat × KV => decide (decide (a.1 ≤ h) = true ∧ (a.1 == h') = true)) = (fun a => a.1 == h') := by
+      funext v
+      by_cases hv : v.1 = h'
+      · simp [hv, hle]
+      · simp [hv]
+    rw [hf]
+
+/-- … and no version above `h` is left: what the abandoned blocks had saved cannot be read any more, at any height -/
+theorem resetTo_at_gt (s s' : VStore) (h h' : Nat) (hr : s.resetTo h = some s') (hgt : h < h') : s'.at h' = none := by
+  unfold VStore.resetTo at hr
+  cases ha : s.at h with
+  | none => simp [ha] at hr
+  | some m =>
+    simp [ha] at hr; rw [← hr]
+    unfold VStore.at
+    simp only [List.find?_filter, Option.map_eq_none_iff, List.find?_eq_none]
+    intro v _
+    by_cases hv : v.1 = h'
+    · simp [hv]; omega
+    · simp [hv]
+
+/-- a rollback keeps the version list descending and within the retention -/
+theorem desc_resetTo {s s' : VStore} (hd : Desc s) (h : Nat) (hr : s.resetTo h = some s') : Desc s' := by
+  unfold VStore.resetTo at hr
+  cases ha : s.at h with
+  | none => simp [ha] at hr
+  | some m =>
+    simp [ha] at hr; rw [← hr]
+    exact List.Pairwise.sublist List.filter_sublist hd
+
+/-- **another block at an abandoned height**: after a rollback to `h`, new writes and a commit, the height above the new
+head shows the new block (`h` being the head then needs `h` retained and the list descending) -/
+theorem resetTo_then_commit (s s' : VStore) (h : Nat) (hk : 0 < s.keep) (hr : s.resetTo h = some s') (ws : List BOp) :
+    ((ws.foldl VStore.write s').commit).at ((ws.foldl VStore.write s').version + 1) =
+      some (ws.foldl VStore.write s').working := by
+  have hk' : 0 < (ws.foldl VStore.write s').keep := by
+    rw [writes_keep]
+    unfold VStore.resetTo at hr
+    cases ha : s.at h with
+    | none => simp [ha] at hr
+    | some m => simp [ha] at hr; rw [← hr]; exact hk
+  exact at_commit_self _ hk'
+
 end IdenaModel.Store
